@@ -542,8 +542,8 @@ def signatures_to_file(cases, path):
     evs = []
     for c in cases:
         npo, npk, nko, hva, hvk, kind = c["shape"]
-        if npo and V < (3, 8):
-            continue
+        # (positional-only parameters on 3.7: hand-built data or a 3.8+ document; the encoder must refuse it, it cannot
+        # express it - if it encodes anyway, the signature clauses compare what comes out with the data)
         a = Args(tuple("p%d" % i for i in range(npo)), tuple("a%d" % i for i in range(npk)), "args" if hva else None,
                  tuple("k%d" % i for i in range(nko)), "kw" if hvk else None)
         body = []
